@@ -223,10 +223,11 @@ def r05d(run):
     def typed(n, c):
         # the conversion target is a local (the role `addition_type` plays) that is known to be truthy at the call
         t = c.args[1] if len(c.args) >= 2 else kwarg(c, "t")
-        if not isinstance(t, ast.Name):
+        if not isinstance(t, (ast.Name, ast.Attribute)):
             return False
+        tx = unparse(t)
         fs_ = facts(fa, n)
-        return (f"not {t.id}", False) in fs_ or (t.id, True) in fs_
+        return (f"not {tx}", False) in fs_ or (tx, True) in fs_
     ok = bool(conv) and all(typed(n, c) for n, c in conv)
     run.check("R05d", f, "a declared addition type converts the value", ok, construct="addition type unused",
               message="parse_addition does not convert with the declared addition type")
